@@ -22,7 +22,7 @@ PROPS["C13"] = {
 }
 
 PROPS["C04"] = {
-    "suites": [("comp_router", "gen_c04")],
+    "suites": [("comp_router", "gen_c04"), ("comp_router", "gen_reentrant")],
     "rule": "every subset (thorough: and order) of the devices {A, B, catch-all} x 0..3 registered clients; per state a sweep of every client-originated kind x device name "
             "{A, B, none, unknown} x every sender (nobody, each client, each device), enableBLOB from every sender incl. an unregistered one for every name and policy, "
             "unregister + resend; plus random histories up to 200 operations over 5 devices / 5 clients; a history is distinct by its operation list",
@@ -31,7 +31,7 @@ PROPS["C04"] = {
     "assumptions": ["endpoints do not re-enter the router while a message is being fanned out (recording endpoints)"],
 }
 PROPS["C05"] = {
-    "suites": [("comp_router", "gen_c05")],
+    "suites": [("comp_router", "gen_c05"), ("comp_router", "gen_reentrant")],
     "rule": "1..3 clients x policy assignments {unset, Never, Also, Only}^3 for device A (quick: 24 sampled assignments) x second device/whole-server policies; per state a sweep "
             "of every device-originated kind (incl. setBLOBVector, getProperties relay) x device name x sender; change of mind, unregister, enableBLOB while unregistered, re-register; "
             "plus random histories up to 200 operations; a history is distinct by its operation list",
@@ -50,7 +50,7 @@ PROPS["C09"] = {
 }
 
 PROPS["C02"] = {
-    "suites": [("comp_buf", "gen_c02")],
+    "suites": [("comp_buf", "gen_c02"), ("comp_xml", "gen_session")],
     "rule": "one message of every kind in two sizes, text with > < & quotes non-ASCII ]]> in 6 XML spellings (library to_string, compact, indented, single quotes + reversed attributes, "
             "explicit empty elements + raw '>' in text + declaration in single quotes, attributes on separate lines + CRLF); per stream all 1-cut partitions, all 2-cut partitions when "
             "short (sampled otherwise), character-by-character, whole; thresholds {exactly fitting, one below (outside the hypothesis), 2048, disabled}; sequences of 2-5 messages with random "
@@ -59,7 +59,7 @@ PROPS["C02"] = {
     "assumptions": ["(A1) whatever parses contains the opener of a registered tag; spellings without CDATA/comments containing openers"],
 }
 PROPS["C11"] = {
-    "suites": [("comp_buf", "gen_c11")],
+    "suites": [("comp_buf", "gen_c11"), ("comp_xml", "gen_session")],
     "rule": "valid messages truncated at every position followed by valid traffic; junk assembled from protocol fragments (known/unknown openers and closers, attributes, quotes, "
             "< > &, comments, CDATA, declarations, NUL, Latin-1, entity references) interleaved with valid and truncated messages and random bytes; long junk beyond every threshold "
             "then valid messages; x random fragmentations x thresholds {16, 128, 2048, disabled}; watchdog on every process(); distinct by (threshold, partition)",
@@ -145,7 +145,7 @@ PROPS["C18"] = {
     "assumptions": ["that every way of ending funnels into close()+unregister is handler control flow: tied by the correspondence, not proved; real sockets are not exercised"],
 }
 PROPS["C03"] = {
-    "suites": [("comp_wire", "gen_cases"), ("comp_codec", "gen_toxml_cases")],
+    "suites": [("comp_wire", "gen_cases"), ("comp_codec", "gen_toxml_cases"), ("comp_xml", "gen_msg"), ("comp_xml", "gen_ser"), ("comp_xml", "gen_parse")],
     "rule": "all 22 message kinds x optional-attribute subsets (thorough: all subsets) x 0,1,2,4 children x attribute and text values over markup characters, both quotes, BMP and astral "
             "code points, inner whitespace, newlines and tabs (attributes also with surrounding whitespace; label equal to name) through the real to_string/from_string, the re-serialisation, "
             "and five foreign spellings (compact, indented, single quotes + reversed attributes, explicit empty elements + raw '>', attributes on separate lines + CRLF); random messages; "
